@@ -114,6 +114,20 @@ def mk_coef(env, name, k):
     return complex(int(re) * sc, int(im) * sc), (fractions.Fraction(int(re), 1 << k), fractions.Fraction(int(im), 1 << k))
 
 
+def mk_coef_near(env, name, base, k):
+    """symbolic scalar base + (a + i b) * 2^-k with base one of 1, 1j, -1, -1j and a, b in -3..3: numbers at and next to the
+    four scalars the library treats specially (phase absorption)"""
+    br, bi = {'1': (1, 0), 'i': (0, 1), '-1': (-1, 0), '-i': (0, -1)}[base]
+    re = env.ints(name + '_re', (1,), 0, 6)[0] - 3
+    im = env.ints(name + '_im', (1,), 0, 6)[0] - 3
+    if env.symbolic:
+        R = SDyad(arith('+', re, br << k), k)
+        I = SDyad(arith('+', im, bi << k), k)
+        return SC(R, I), (R, I)
+    sc = 2.0 ** -k
+    return complex(br + int(re) * sc, bi + int(im) * sc), (fractions.Fraction(br) + fractions.Fraction(int(re), 1 << k), fractions.Fraction(bi) + fractions.Fraction(int(im), 1 << k))
+
+
 def mk_operand(env, M, N, kind, tag, ks):
     """(object, reference terms) of a symbolic operand of the given type"""
     if kind == 'number':
@@ -244,7 +258,7 @@ def _terms_now(A, M):
     return [(A.g, A.p)]
 
 
-def h_scalar(env, N, kind, ks, kc, op):
+def h_scalar(env, N, kind, ks, kc, op, base=None):
     M = Mods(env)
     A, ta = mk_operand(env, M, N, kind, 'a_', ks)
     va = coefvec(N, ta)
@@ -262,7 +276,21 @@ def h_scalar(env, N, kind, ks, kc, op):
             got = vec_of(res.value, N, M)
             env.goal('negation', AND(b_and(eq(got[s][0], arith('-', 0, va[s][0])), eq(got[s][1], arith('-', 0, va[s][1]))) for s in va))
         return
-    c, cp = mk_coef(env, 'c', kc)
+    c, cp = mk_coef(env, 'c', kc) if base is None else mk_coef_near(env, 'c', base, kc)
+    if op == 'mul' and kind == 'PauliList':
+        # a list has no coefficients: only the four exact phase factors are defined (phases shift), anything else is refused
+        res = env.run(lambda: c * A)
+        q = {'1': 0, 'i': 1, '-1': 2, '-i': 3}[base]
+        br, bi = {'1': (1, 0), 'i': (0, 1), '-1': (-1, 0), '-i': (0, -1)}[base]
+        exact = b_and(eq(cp[0], br), eq(cp[1], bi))
+        if res.value is not None and isinstance(res.value, M.pa.PauliList) and not isinstance(res.value, M.pa.PauliPolynomial):
+            shifted = AND(b_and(arr_eq(res.value.gs[k], ta[k][0]), eq(res.value.ps[k], (ta[k][1] + q) % 4)) for k in range(len(ta))) if len(res.value) == len(ta) else False
+            env.goal('list_times_scalar_only_for_exact_phase_factors', b_implies(b_not(res.raised), b_and(exact, shifted)))
+        elif res.value is not None:
+            vec_eq(env, 'scaled', vec_of(res.value, N, M), coefvec(N, [(g, p, cmul(cp, ck)) for g, p, ck in ta]))
+        env.goal('exact_phase_factor_accepted', b_implies(exact, b_not(res.raised)))
+        env.goal('refusal_is_NotImplementedError', b_implies(res.raised, res.raised_kind('NotImplementedError')))
+        return
     if op == 'mul':
         res = env.run(lambda: c * A)
         want = coefvec(N, [(g, p, cmul(cp, ck)) for g, p, ck in ta])
@@ -514,6 +542,10 @@ def jobs(tier):
                     for kc in ((0, 20) if (op != 'div' and (thorough or N == 1)) else (0,)):
                         J.append(dict(harness=('c15', 'h_scalar'), params=dict(N=N, kind=kind, ks=[0, 20][:2 if kind == 'PauliPolynomial' else 1], kc=kc, op=op),
                                       timeout_s=600, max_paths=20000, cost=20))
+            if kind != 'PauliPolynomial' or N == 1:
+                for base in ('1', 'i', '-1', '-i'):
+                    J.append(dict(harness=('c15', 'h_scalar'), params=dict(N=N, kind=kind, ks=[0, 20][:2 if kind in ('PauliPolynomial', 'PauliList') else 1], kc=20, op='mul', base=base),
+                                  timeout_s=600, max_paths=20000, cost=20))
             J.append(dict(harness=('c15', 'h_trace'), params=dict(N=N, kind=kind)))
             J.append(dict(harness=('c15', 'h_to_qutip'), params=dict(N=N, kind=kind), timeout_s=600, max_paths=20000, cost=20))
         for ks in pats:
